@@ -39,6 +39,7 @@ def run(ctx, env):
     ctx.rule("R7.1", "each decoder call is dominated by contains_key(&id)==true on the very map and key the decoder's own get(&id) reads")
     ctx.rule("R7.2", "the fall-through (no guard true) builds Err and reaches no decoder call and no cache write")
     ctx.rule("R7.3", "each unwrap_or_default() on a cache lookup is inside a decoder that is only called under R7.1's guard; IPFIX decoders reject an empty field list before decoding")
+    ctx.rule("R7.5", "every mutation of a template map (insert / extend / remove / ..) is made by the template or options-template arm of FlowSetBody::parse (directly or through private helpers called only from there): the unknown-id path, the data decoders and the error path of a failed packet cannot change the caches")
     ctx.rule("R7.4", "V9: the flowset error is propagated with `?` (packet becomes an error); IPFIX: sets are parsed under many0(complete(..)) (earlier sets kept)")
     ca = CacheAccess(prog, an)
     bodies = reach_bodies(prog, PARSE_ROOTS)
@@ -142,6 +143,41 @@ def run(ctx, env):
                site=b.line(min(region)) if region else "")
     ctx.floor("R7.2", "crate", "dispatch functions with guards", len(guard_bodies), 2)
 
+    # R7.5
+    ARM_OWNERS = ("variable_versions::v9::FlowSetBody::parse", "variable_versions::ipfix::FlowSetBody::parse")
+    memo_ok = {}
+
+    def owner_ok(path, depth=0):
+        root = path.split("::{closure")[0]
+        if root in ARM_OWNERS:
+            return True, root
+        if root in memo_ok:
+            return memo_ok[root]
+        memo_ok[root] = (False, "recursive")
+        hb = prog.bodies.get(root)
+        if hb is None or hb.j.get("pub") or depth > 3:
+            memo_ok[root] = (False, "%s is %s" % (root, "public" if hb is not None and hb.j.get("pub") else "not a private helper of the template arms"))
+            return memo_ok[root]
+        callers = [cb.path for cb in prog.bodies.values() for _, _, c2 in cb.calls() if c2 is not None and c2.local and c2.path == root]
+        if not callers:
+            memo_ok[root] = (False, "%s has no caller" % root)
+            return memo_ok[root]
+        for cp in callers:
+            ok2, why2 = owner_ok(cp, depth + 1)
+            if not ok2:
+                memo_ok[root] = (False, "%s is called from %s" % (root, cp))
+                return memo_ok[root]
+        memo_ok[root] = (True, root)
+        return memo_ok[root]
+
+    nmut = 0
+    for w in ca.writes:
+        nmut += 1
+        okw, whyw = owner_ok(w["body"].path)
+        ctx.ob("R7.5", w["body"].path, "mutation-in-template-arm:%s:%s.%s" % (w["kind"], w["adt"].rsplit("::", 1)[1], w["field"]), okw,
+               "%s of %s.%s %s" % (w["kind"], w["adt"].rsplit("::", 1)[1], w["field"], "belongs to a template arm of FlowSetBody::parse" if okw else "happens outside the template arms: " + whyw),
+               site=w["body"].line(w["block"]))
+    ctx.floor("R7.5", "crate", "cache mutation sites", nmut, 4)
     # R7.3 — form-independent: every cache lookup (`get`) on the parse path sits in a decoder whose callers are all
     # guarded (R7.1), so whatever the lookup falls back to when the id is missing (unwrap_or_default(), a `None` arm,
     # unwrap_or(&default)) is unreachable
